@@ -769,7 +769,7 @@ class FnTrans:
             emit('v_%s.f0 = __exc_obj; v_%s.f1 = (uint32_t)__exc_sel; __exc_pending = 0;' % (cname(dst), cname(dst)))
         elif op == 'resume':
             t = p.type(); v = p.value(t)
-            emit('__exc_obj = %s.f0; __exc_pending = 1; %s' % (em.val(t, v), s.default_ret))
+            emit('__VERIF_resume(%s.f0); %s' % (em.val(t, v), s.default_ret))
         elif op == 'freeze':
             t = p.type(); v = p.value(t); s.deflocal(dst, t); emit('v_%s = %s;' % (cname(dst), em.val(t, v)))
         elif op == 'atomicrmw':
